@@ -536,6 +536,13 @@ def run(ctx):
             ctx.violation("l2m:%s" % k, "two experiments, gene=%s transcript=%s order %d: %s" % (key + (msg,)), {"l2m": list(key)})
     ctx.note("two-experiment runs: %d" % len(jm))
     jobs = jobs + jm
+    # grouped TPM tables (a read group whose column total lies between 0 and 1): every group column is its counts column rescaled
+    from props import c09
+    jd = [(st, ctx.scratch) for st in ("with_ambiguous", "all", "unique_only")]
+    for key, errs in core.pmap(c09.l3d_case, jd):
+        for k, msg in errs:
+            ctx.violation("l3d:%s" % k, "strategy %s: %s" % (key, msg), {"l3d": key})
+    jobs = jobs + jd
     j3 = l3_jobs(ctx)
     for key, errs in core.pmap(l3_case, j3, chunksize=2):
         for k, msg in errs:
@@ -559,6 +566,12 @@ def _tup(x):
 
 
 def replay(ctx, case):
+    if "l3d" in case:
+        from props import c09
+        key, errs = c09.l3d_case((case["l3d"], ctx.scratch))
+        for k, msg in errs:
+            ctx.violation("l3d:%s" % k, msg, case)
+        return
     if "l2m" in case:
         key, errs = l2m_case(tuple(case["l2m"]) + (ctx.scratch,))
         return errs[0][1] if errs else None
